@@ -226,6 +226,15 @@ package iscp
 // C05: a reconnect replaces the wire connection and nothing else of the connection's identity
 // state: the stream-alias generator (and with it every alias already handed out) survives
 //@   ensures[C05] c.downstreamIDGenerator == old(c.downstreamIDGenerator) && imp(c.downstreamIDGenerator != nil, c.downstreamIDGenerator.currentValue == old(c.downstreamIDGenerator.currentValue))
+//@   ensures[C05] c.sentStorage == old(c.sentStorage)
+//@   ensures[C05] c.upstreamRepository == old(c.upstreamRepository)
+//@   ensures[C05] c.downstreamRepository == old(c.downstreamRepository)
+//@   ensures[C05] c.state == old(c.state)
+//@   ensures[C05] c.eventDispatcher == old(c.eventDispatcher)
+//@   ensures[C05] c.replyCallChs == old(c.replyCallChs)
+//@   ensures[C05] c.upstreamCallAckCh == old(c.upstreamCallAckCh)
+//@   ensures[C05] c.replyCallCh == old(c.replyCallCh)
+//@   ensures[C05] c.downstreamCallCh == old(c.downstreamCallCh)
 //@   nopanic
 //@   requires[C10] c.state != nil && c.state.cond != nil && c.state.RWMutex != nil && c.wireConn != nil && c.logger != nil && c.Config.TokenSource != nil
 //@   assert call CompareAndSwapNot: arg1 == connStatusClosed
@@ -555,6 +564,12 @@ package iscp
 //@   ghostvar failed bool = false
 //@   after call closeWithError: closedWith = arg2
 //@   after call retry.Do: failed = (resErr != nil)
+// ... and keeps its identity: stream id, sequence generator and its value, running total, buffer
+//@   ensures[C05,C02] u.ID == old(u.ID)
+//@   ensures[C05,C02] u.sequence == old(u.sequence)
+//@   ensures[C05,C02] imp(u.sequence != nil, u.sequence.Current == old(u.sequence.Current))
+//@   ensures[C05,C02] u.totalDataPoints == old(u.totalDataPoints)
+//@   ensures[C05,C02] u.sent == old(u.sent)
 //@   assert[C05] call retry.Do: u.wireConn == newConn
 //@   assert[C05] call closeWithError: failed && arg2 == resErr
 //@   ensures[C05] imp(failed, result != nil && closedWith != nil)
@@ -573,6 +588,14 @@ package iscp
 //@   after call closeWithError: closedWith = arg2
 //@   after call retry.Do: failed = (resErr != nil)
 //@   assert call retry.Do: d.wireConn == parentConn.wireConn
+// ... and keeps its identity: stream id, alias, alias tables and generators, ack numbering
+//@   ensures d.ID == old(d.ID)
+//@   ensures d.idAlias == old(d.idAlias)
+//@   ensures d.dataIDAliasGenerator == old(d.dataIDAliasGenerator)
+//@   ensures d.upstreamInfoAliasGenerator == old(d.upstreamInfoAliasGenerator)
+//@   ensures d.chunkAckIDSequence == old(d.chunkAckIDSequence)
+//@   ensures imp(d.chunkAckIDSequence != nil, d.chunkAckIDSequence.Current == old(d.chunkAckIDSequence.Current))
+//@   ensures imp(d.dataIDAliasGenerator != nil, d.dataIDAliasGenerator.currentValue == old(d.dataIDAliasGenerator.currentValue))
 //@   assert call closeWithError: failed && arg2 == resErr
 //@   ensures imp(failed, result != nil && closedWith != nil)
 //@   ensures imp(result == nil, connected)
